@@ -5,7 +5,7 @@
     before. All statements hold for every storage content (any key tree, any values), every
     combination of options, every grace period and interval, every fault plan and cancellation
     point. [file s k] is the value of the terminal key k. *)
-From CM Require Import Lib.Str Lib.CleanSyntax Gen.Consts Clean.Model Clean.Proofs Clean.Check Clean.SpecProofs Clean.Concurrent.
+From CM Require Import Lib.Str Lib.CleanSyntax Gen.Consts Clean.Model Clean.Proofs Clean.Prog Clean.Check Clean.SpecProofs Clean.Concurrent Clean.Interfere.
 From Coq Require Import String Ascii.
 Open Scope Z_scope.
 
@@ -190,6 +190,35 @@ Theorem C18_no_deadlock : forall s0 thr0 sched, init_ok thr0 ->
 Proof. exact no_deadlock. Qed.
 Print Assumptions C18_no_deadlock.
 
+(** ** a cleaning while actors that are NOT cleaners use the storage (Clean/Interfere.v). The
+    property's schedules are concurrent cleaners; an instance that obtains or renews a
+    certificate does not take the storage_clean lock. What holds nevertheless:
+    against ANY world -- arbitrary responses to the cleaner's calls: other writers between any
+    two calls, a misbehaving back-end -- every Delete(k) a cleaning issues is warranted by what
+    this very run has read before: k was listed in ocsp/ and loaded as an unparseable or stale
+    staple; or k is X.crt|X.key|X.json for an X.crt listed in a listed site folder of a listed
+    issuer and loaded as a certificate expired for the grace period; or k is a listed site
+    folder that the two immediately preceding calls listed as empty and Stat'ed as non-terminal *)
+Theorem C18_interference_deletes_warranted : forall o now (W : Type) (wexec : act -> W -> resp * W) w,
+  all_warranted o now (fst (wrun W wexec (clean_locked_prog o now) w [])).
+Proof. exact deletes_warranted. Qed.
+Print Assumptions C18_interference_deletes_warranted.
+
+(** hence on a storage that honours the List contract, with any foreign operations (Store /
+    Delete of anything, anywhere) applied just before any calls of the cleaner, for every
+    storage content, fault plan and cancellation point: every Delete call of the cleaner
+    addresses ocsp/<x>, certificates/<i>/<s>/<X>.crt|.key|.json (X.crt listed there), or a site
+    folder certificates/<i>/<s> -- never account data, locks or any other key *)
+Theorem C18_interference_deletes_in_namespace : forall e fs o now s0 ev,
+  In ev (lg (snd (cleani e fs o now s0))) -> ev_kind ev = KDelete -> in_clean_namespace (ev_key ev).
+Proof. exact cleani_deletes_in_namespace. Qed.
+Print Assumptions C18_interference_deletes_in_namespace.
+
+(** without foreign operations the interfered cleaning is the model *)
+Theorem C18_no_interference_is_model : forall e o now s0, cleani e [] o now s0 = clean e o now s0.
+Proof. exact cleani_nil. Qed.
+Print Assumptions C18_no_interference_is_model.
+
 (** ** the same, node by node (covers the directory nodes of the FileStorage flavour): a key
     keeps its node; or is gone and justified; or was a directory node certificates/<issuer>/<site>
     (certificates being cleaned) below which nothing is left; or is last_clean.json, written by a
@@ -358,6 +387,43 @@ Proof. vm_compute. reflexivity. Qed.
 (** part-way through, thread 0 is inside and the others wait *)
 Example ex_concurrent_mid :
   (cs_holder ex_c1, is_finished ex_c1 1%nat, is_finished ex_c1 2%nat) = (Some 0%nat, false, false).
+Proof. vm_compute. reflexivity. Qed.
+
+(** ** Limit, stated (outside the property's schedules: the other actor is not a cleaner): the
+    folder removal is not atomic with the emptiness test. FileStorage flavour; the site folder of
+    a long-expired certificate is emptied (calls 5-7), listed empty (8), Stat'ed (9); just before
+    call 10 = Delete(site folder) another instance stores a fresh, unexpired certificate into that
+    folder; Delete is recursive: the fresh certificate is gone. *)
+Definition ex_fs_store : store :=
+  [ (s2k "certificates", Dir); (s2k "certificates/iss", Dir); (s2k "certificates/iss/dead.example", Dir);
+    (s2k "certificates/iss/dead.example/dead.example.crt", File 3 (crt (T - 31 * day)));
+    (s2k "certificates/iss/dead.example/dead.example.key", File 4 plain);
+    (s2k "certificates/iss/dead.example/dead.example.json", File 2 plain);
+    (s2k "acme/ca/users/u/u.key", File 13 plain) ].
+Definition ex_renewed : key := s2k "certificates/iss/dead.example/dead.example.crt".
+Definition ex_opts0 : opts := Opts 0 false true (30 * day) (s2k "me").
+Theorem C18_foreign_writer_refuted : exists e fs o now s0 k v c na,
+  fs = [(10%nat, FPut k (File v c))] /\ as_cert c = Some na /\ now < expires_at na /\ 0 <= grace o /\
+  fst (cleani e fs o now s0) = RNil /\
+  file (sto (snd (cleani e fs o now s0))) k = None.
+Proof.
+  exists ex_env, [(10%nat, FPut ex_renewed (File 77 (crt (T + 90 * day))))], ex_opts0, T, ex_fs_store,
+         ex_renewed, 77, (crt (T + 90 * day)), (T + 90 * day).
+  vm_compute. repeat split; try reflexivity; discriminate.
+Qed.
+Print Assumptions C18_foreign_writer_refuted.
+
+(** the same write two calls earlier (before the second listing) is seen and survives; and the
+    Delete calls of the refuting run are all in the cleaned namespaces *)
+Example ex_foreign_writer_seen :
+  file (sto (snd (cleani ex_env [(8%nat, FPut ex_renewed (File 77 (crt (T + 90 * day))))] ex_opts0 T ex_fs_store))) ex_renewed
+  = Some (77, crt (T + 90 * day)).
+Proof. vm_compute. reflexivity. Qed.
+Example ex_foreign_writer_calls :
+  map (fun ev => (opk_code (ev_kind ev), ev_ok ev))
+      (rev (lg (snd (cleani ex_env [(10%nat, FPut ex_renewed (File 77 (crt (T + 90 * day))))] ex_opts0 T ex_fs_store))))
+  = [(0, true); (3, true); (3, true); (3, true); (2, true); (5, true); (5, true); (5, true);
+     (3, true); (4, true); (5, true); (6, true); (1, true)]%N.
 Proof. vm_compute. reflexivity. Qed.
 
 (** ** Limits, stated: a NEGATIVE grace period makes the comparison
